@@ -20,7 +20,7 @@ def run(ctx):
     F = ctx.facts("default")
     # the async API has no load_from (the reader is an AsyncRead handed to load_internal)
     opt = ("Document::load_from", "IncrementalDocument::load_from") if ctx.cur_cfg == "async" else ()
-    sc, sites, st, tst = safety.run(ctx, F, scopes.C04_ENTRIES, optional=opt)
+    sc, sites, st, tst = safety.run(ctx, F, scopes.C04_ENTRIES, optional=opt, with_fmt=True)
     ctx.floor("R-INV", "C04 scope bodies", len(sc), 380)
     ctx.floor("R-INV", "C04 panic-capable sites", st["sites"], 270)
     ctx.floor("R-TERM", "C04 loops", tst["loops"], 40)
